@@ -701,6 +701,10 @@ Definition shape_of (fmt : str) (o : opts) (c : str) : bool :=
 (* ------------------------------------------------------------------ writer / renderer models (first lines as functions of
    the abstract table) used by the soundness theorems *)
 Definition nl : byte := x0a.
+Definition nolb (s : str) : bool := forallb (fun c => negb (is_linebreak c)) s.
+Definition nosep (sep : byte) (s : str) : bool := forallb (fun c => negb (byte_eqb c sep)) s.
+Definition wsfree (s : str) : bool := forallb (fun c => negb (is_ws c)) s.
+Definition word (k : str) : bool := wsfree k && negb (match k with [] => true | _ => false end).
 Fixpoint join (sep : byte) (fs : list str) : str :=            (* sep.join(fs) *)
   match fs with
   | [] => []
@@ -753,12 +757,37 @@ Definition ident_fraction_ok (ident : str) : bool :=      (* 0 <= float(ident)*1
 Definition ident_percent_ok (ident : str) : bool :=       (* 0 <= float(ident) <= 100 *)
   match py_float ident with Some f => float_in_range f 100 47 | None => false end.
 Definition render_hits (sep : byte) (rows : list (list str)) : str := text_of (map (join sep) rows).
+Definition hits_rows_ok (sep : byte) (rows : list (list str)) : bool := forallb (fun r => forallb (field_ok sep) r) rows.
 Definition wf_hits (sep : byte) (rows : list (list str)) : bool :=
   match rows with
-  | r0 :: _ => hit_fields_ok sep r0 && Nat.leb (length (join sep r0) + 1) 1000
-               && forallb (fun r => forallb (fun f => forallb (fun c => negb (is_linebreak c)) f) r) rows
+  | r0 :: _ => hit_fields_ok sep r0 && Nat.leb (length (join sep r0) + 1) 1000 && hits_rows_ok sep rows
   | [] => false
   end.
+(* MMseqs2 fmtmode 4: a row of column names, then the hits *)
+Definition render_mmseqs4 (names : list str) (rows : list (list str)) : str :=
+  text_of (join tab names :: map (join tab) rows).
+Definition wf_mmseqs4 (names : list str) (rows : list (list str)) : bool :=
+  Nat.leb 4 (length names) && subset_str names MMSEQS_HEADER_NAMES && negb (subset_str names INFERNAL_HEADER_KW)
+  && Nat.leb (length (join tab names) + 1) 1000 && hits_rows_ok tab rows.
+(* BLAST outfmt 7: "# <PROGRAM> <version>", further comment lines (Query, Database, Fields, hits found), the hits *)
+Definition blast7_line0 (prog ver : str) : str := bs "# "%bs ++ prog ++ bs " "%bs ++ ver.
+Definition render_blast7 (prog ver : str) (comments : list str) (rows : list (list str)) : str :=
+  text_of (blast7_line0 prog ver :: comments) ++ text_of (map (join tab) rows).
+Definition wf_blast7 (prog ver : str) (comments : list str) (rows : list (list str)) : bool :=
+  word prog && word ver && contains (bs "BLAST"%bs) prog
+  && forallb (fun l => nosep tab l && nolb l) comments
+  && Nat.leb 100 (length (text_of (blast7_line0 prog ver :: comments)))
+  && Nat.leb (length (blast7_line0 prog ver) + 1) 1000.
+(* Infernal tblout: header comment line, ruler line, hit lines (blank padded) *)
+Definition render_infernal (l0 l1 : str) (rows : list str) : str := text_of (l0 :: l1 :: rows).
+Definition wf_infernal (l0 l1 : str) (rows : list str) : bool :=
+  match l0 with
+  | "#"%byte :: a :: _ => negb (byte_eqb a "#"%byte)
+  | _ => false
+  end
+  && nosep tab l0 && nolb l0 && nolb l1 && Nat.leb 100 (length l0) && Nat.leb (length l0 + length l1 + 2) 1000
+  && subset_str (split_ws (lstrip_char "#"%byte l0)) INFERNAL_HEADER_KW
+  && existsb (Nat.eqb (length (split_ws (lstrip_char "#"%byte l1)))) INFERNAL_NCOLS.
 Definition ident_of (rows : list (list str)) : str := nth 2 (hd [] rows) [].
 
 (* FASTA / Stockholm / GFF writers: the first line as a function of the object (fasta.py:84-95, stockholm.py:166-171,
@@ -769,6 +798,41 @@ Definition render_fasta (recs : list (str * str * str)) : str :=
 Definition render_stockholm (body : list str) : str :=      (* '\n'.join(['# STOCKHOLM 1.0'] + body + ['//\n']) *)
   join nl (bs "# STOCKHOLM 1.0"%bs :: body ++ [bs "//"%bs ++ [nl]]).
 Definition render_gff (header : str) (body : str) : str := bs "##gff-version 3"%bs ++ [nl] ++ header ++ body.
+
+(* ------------------------------------------------------------------ read / iter_ / read_fts: which plugin reads what
+   (main.py:240-262, 307-330, 356-367): with fmt omitted the format is detected on the handle, then in both cases
+   fmt.lower() selects the plugin, which reads the SAME handle from where it stands with the SAME keyword options *)
+Record plan := { pl_fmt : str; pl_pos : nat; pl_content : str; pl_binary : bool; pl_opts : opts }.
+Definition read_plan (w : what) (o : opts) (fmt : option str) (h : handle) : option plan :=
+  match fmt with
+  | Some f => Some {| pl_fmt := lower f; pl_pos := h_pos h; pl_content := h_content h; pl_binary := h_binary h; pl_opts := o |}
+  | None =>
+      match detect_h w o h with
+      | (DFound d, h') => Some {| pl_fmt := lower d; pl_pos := h_pos h'; pl_content := h_content h'; pl_binary := h_binary h'; pl_opts := o |}
+      | _ => None                                     (* IOError: Format cannot be auto-detected *)
+      end
+  end.
+
+(* the write-side decision as a first-match table of (condition, outcome) rows, written independently of write_resolve *)
+Definition is_name_arg (f : fname_arg) : option str := match f with FStr s | FPath s => Some s | _ => None end.
+Definition wtable (w : what) (first_archive : str) (f : fname_arg) (fmt : option str) (a : archive_arg) : wdecision :=
+  let archived := match a with ANone => false | _ => true end in
+  let arch := match a with AStr x => x | _ => first_archive end in
+  (* the format: the option if given, else from the extension of the (base) name *)
+  let chosen := match fmt, is_name_arg f with
+                | Some x, _ => Some (lower x)
+                | None, Some s => option_map lower (detect_ext w (if archived then basename s else s))
+                | None, None => None
+                end in
+  match archived, is_name_arg f, f, chosen with
+  | true, None, _, _ => WErrArchiveHandle              (* row 1: archive= needs a file name *)
+  | false, None, FNone, None => WErrNoFmt              (* row 2: nothing to derive the format from *)
+  | _, _, _, None => WErrDetect                        (* row 3: extension unknown (or a handle without fmt) *)
+  | true, Some s, _, Some x => WArchive s arch x       (* row 4 *)
+  | false, Some s, _, Some x => WFile s x              (* row 5 *)
+  | false, None, FNone, Some x => WToStr x             (* row 6 *)
+  | false, None, _, Some x => WHandle x                (* row 7 *)
+  end.
 
 (* ------------------------------------------------------------------ domain and harness entry point *)
 (* contents: printable ASCII, tab, newline (what every transport delivers unchanged to the sniffers) *)
@@ -821,12 +885,26 @@ Definition run_C03_render_xsv (sep : byte) (keys : list str) (rows : list (list 
   VL [VB (wf_xsv sep keys rows); VS (render_xsv sep keys rows)].
 Definition run_C03_render_hits (sep : byte) (rows : list (list str)) : val :=
   VL [VB (wf_hits sep rows); VS (render_hits sep rows)].
+Definition run_C03_render_mmseqs4 (names : list str) (rows : list (list str)) : val :=
+  VL [VB (wf_mmseqs4 names rows); VS (render_mmseqs4 names rows)].
+Definition run_C03_render_blast7 (prog ver : str) (comments : list str) (rows : list (list str)) : val :=
+  VL [VB (wf_blast7 prog ver comments rows); VS (render_blast7 prog ver comments rows)].
+Definition run_C03_render_infernal (l0 l1 : str) (rows : list str) : val :=
+  VL [VB (wf_infernal l0 l1 rows); VS (render_infernal l0 l1 rows)].
 Definition run_C03_render_fasta (recs : list (str * str * str)) : val :=
   VL [VB (match recs with [] => false | _ => true end); VS (render_fasta recs)].
 Definition run_C03_render_stockholm (body : list str) : val := VL [VB true; VS (render_stockholm body)].
 Definition run_C03_render_gff (header body : str) : val := VL [VB true; VS (render_gff header body)].
 Definition run_C03_ext (w : N) (fname : str) : val :=
   VL [VB true; VOpt VS (detect_ext (v_what w) fname)].
+(* the plan of a read with fmt omitted / given: [format used; start position] or IOError *)
+Definition run_C03_plan (w : N) (sep : option byte) (binary : bool) (pos : nat) (fmt : option str) (c : str) : val :=
+  let o := {| o_sep := sep; o_outfmt := None |} in
+  VL [VB (wf_C03 c pos);
+      match read_plan (v_what w) o fmt {| h_content := c; h_pos := pos; h_binary := binary |} with
+      | Some p => VL [VS (pl_fmt p); VI (Z.of_nat (pl_pos p))]
+      | None => VE (bs "OSError"%bs)
+      end].
 (* histories: the model is pure, so every step is the model applied to the content the handle holds at that moment *)
 Inductive hstep :=
 | HDetect (w : N) (sep : option byte) (outfmt : option str) (binary : bool) (pos : nat) (c : str)
